@@ -7,6 +7,8 @@ This module contains functions which are imported as methods in the `FST` class 
 
 from __future__ import annotations
 
+import re
+
 from itertools import takewhile
 from types import FunctionType, NoneType
 from typing import Any, Callable, Mapping, NamedTuple
@@ -2238,6 +2240,8 @@ def _one_info_identifier_required(
 
 _onestatic_identifier_required = onestatic(_one_info_identifier_required, _restrict_default, code_as=code_as_identifier)
 
+_re_identifier_at_end = re.compile(r'\w+\Z')
+
 def _alias_name_end(self: fst.FST) -> tuple[int, int]:
     """End of the name of an `alias` in the source, a dotted name can have whitespace and line continuations around the
     dots so it is not necessarily as long as the `name` string or on one line."""
@@ -2461,8 +2465,8 @@ def _one_info_ExceptHandler_name(self: fst.FST, static: onestatic, idx: int | No
     else:
         lines = self.root._lines
         ln, col = next_find(lines, ln, col, end_ln, end_col, 'as')  # skip the 'as'
-        ln, col = next_find(lines, ln, col + 2, end_ln, end_col, name)  # must be there
-        loc_prim = fstloc(ln, col, ln, col + len(name))
+        ln, col, src = next_find_re(lines, ln, col + 2, end_ln, end_col, re_identifier)  # must be there, found as identifier because may not be written normalized
+        loc_prim = fstloc(ln, col, ln, col + len(src))
 
     return oneinfo(' as ', loc_insdel, loc_prim)
 
@@ -2640,7 +2644,9 @@ def _one_info_arguments_kwarg(self: fst.FST, static: onestatic, idx: int | None,
     return oneinfo(', **', fstloc(ln, col, end_ln, end_col))
 
 def _one_info_arg_annotation(self: fst.FST, static: onestatic, idx: int | None, field: str) -> oneinfo:
-    return oneinfo(': ', fstloc((loc := self.loc).ln, loc.col + len(self.a.arg), self.end_ln, self.end_col))
+    ln, col, end_ln, end_col = self.loc
+
+    return oneinfo(': ', fstloc(ln, re_identifier.match(self.root._lines[ln], col).end(), end_ln, end_col))  # end of name from source because may not be written normalized
 
 def _one_info_keyword_arg(self: fst.FST, static: onestatic, idx: int | None, field: str) -> oneinfo:
     ast = self.a
@@ -2659,7 +2665,8 @@ def _one_info_alias_asname(self: fst.FST, static: onestatic, idx: int | None, fi
         loc_prim = None
 
     else:
-        loc_prim = fstloc(end_ln, end_col - len(asname), end_ln, end_col)  # the asname is the last thing in the alias, searching for 'as' from the start can find it inside the name ('asyncio', 'has')
+        col = _re_identifier_at_end.search(self.root._lines[end_ln], 0, end_col).start()  # must be there, from source because may not be written normalized
+        loc_prim = fstloc(end_ln, col, end_ln, end_col)  # the asname is the last thing in the alias, searching for 'as' from the start can find it inside the name ('asyncio', 'has')
 
     return oneinfo(' as ', loc_insdel, loc_prim)
 
@@ -2696,8 +2703,10 @@ def _one_info_MatchMapping_rest(self: fst.FST, static: onestatic, idx: int | Non
     if (rest := ast.rest) is None:
         loc_prim = None
     else:
-        rest_ln, rest_col = next_find(self.root._lines, ln, col, end_ln, end_col, rest)
-        loc_prim = fstloc(rest_ln, rest_col, rest_ln, rest_col + len(rest))
+        lines = self.root._lines
+        rest_ln, rest_col = next_find(lines, ln, col, end_ln, end_col, '**')  # must be there
+        rest_ln, rest_col, src = next_find_re(lines, rest_ln, rest_col + 2, end_ln, end_col, re_identifier)  # found as identifier because may not be written normalized
+        loc_prim = fstloc(rest_ln, rest_col, rest_ln, rest_col + len(src))
 
     return oneinfo(prefix, fstloc(ln, col, end_ln, end_col), loc_prim)
 
@@ -2740,7 +2749,7 @@ def _one_info_MatchAs_pattern(self: fst.FST, static: onestatic, idx: int | None,
 
     lines = self.root._lines
     as_ln, as_col = next_find(lines, *pattern.f.pars()[2:], end_ln, end_col, 'as')  # skip the 'as'
-    end_ln, end_col = next_find(lines, as_ln, as_col + 2, end_ln, end_col, name)
+    end_ln, end_col, _ = next_find_re(lines, as_ln, as_col + 2, end_ln, end_col, re_identifier)  # found as identifier because may not be written normalized
 
     return oneinfo('', fstloc(ln, col, end_ln, end_col))
 
@@ -2755,13 +2764,13 @@ def _one_info_MatchAs_name(self: fst.FST, static: onestatic, idx: int | None, fi
         prefix = 'as'
         lines = self.root._lines
         ln, col = next_find(lines, *pattern.f.pars()[2:], end_ln, end_col, 'as')  # skip the 'as'
-        ln, col = next_find(lines, ln, col + 2, end_ln, end_col, ast.name or '_')
+        ln, col, _ = next_find_re(lines, ln, col + 2, end_ln, end_col, re_identifier)  # name or '_', found as identifier because may not be written normalized
 
     return oneinfo(prefix, None, fstloc(ln, col, ln, end_col))
 
 def _one_info_TypeVar_bound(self: fst.FST, static: onestatic, idx: int | None, field: str) -> oneinfo:
     ln = self.ln
-    col = self.col + len(self.a.name)
+    col = re_identifier.match(self.root._lines[ln], self.col).end()  # end of name from source because may not be written normalized
 
     if bound := self.a.bound:
         _, _, end_ln, end_col = bound.f.pars()
@@ -2776,7 +2785,7 @@ def _one_info_TypeVar_default_value(self: fst.FST, static: onestatic, idx: int |
         _, _, ln, col = bound.f.pars()
     else:
         ln = self.ln
-        col = self.col + len(self.a.name)
+        col = re_identifier.match(self.root._lines[ln], self.col).end()  # end of name from source because may not be written normalized
 
     return oneinfo(' = ', fstloc(ln, col, self.end_ln, self.end_col))
 
